@@ -124,7 +124,10 @@ def check_state(l, model, payload_of, opdesc, kind):
         try:
             api_nodes = list(l.iter_nodes())
             api_data = list(l)
-            ln = len(l)
+            try:
+                ln = len(l)
+            except ValueError as e:         # a negative __len__
+                raise Violation("length-mismatch", f"after {opdesc}: len(l) raised {e} (the list holds {n} elements)", {})
         except instr.StepBudgetExceeded:
             raise Violation("traversal-does-not-end", f"after {opdesc}: iteration exceeded its statement budget", {})
     if [id(x) for x in api_nodes] != [id(x) for x in model]:
